@@ -10,6 +10,7 @@ import (
 	"math/rand"
 	"net/http"
 	"net/http/httptest"
+	"os"
 	"sort"
 	"strings"
 	"sync"
@@ -135,8 +136,62 @@ func c01RunHistory(rep *verifkit.Report, rng *rand.Rand, hidx int) {
 
 		return
 	}
-	defer vs.stop()
+	defer func() { vs.stop() }()
 	vs.Up.Script = c01UpstreamScript
+
+	// A sentinel name is blocked by a custom rule in every configuration of
+	// the history (every set_rules keeps the rule): whatever is being rebuilt,
+	// a query for it must never be forwarded while filtering is on.  A second
+	// goroutine keeps asking for it during the operations.
+	const sentinel = "sentinel.hist.test"
+	var sentMu sync.Mutex
+	sentArmed, sentStop := false, false
+	var sentSeen, sentBad int
+	var sentWitness map[string]any
+	curVS := vs
+	var sentWG sync.WaitGroup
+	sentWG.Add(1)
+	go func() {
+		defer sentWG.Done()
+		for {
+			sentMu.Lock()
+			stopNow, armed, srv := sentStop, sentArmed, curVS
+			sentMu.Unlock()
+			if stopNow {
+				return
+			}
+			if !armed || srv == nil {
+				time.Sleep(500 * time.Microsecond)
+
+				continue
+			}
+			resp, xerr := vkExchange(srv, "127.0.0.5", false, dns.Fqdn(sentinel), dns.TypeA)
+			sentMu.Lock()
+			if sentArmed && curVS == srv && xerr == nil && resp != nil {
+				sentSeen++
+				if c01HasMarker(resp) {
+					sentBad++
+					if sentWitness == nil {
+						sentWitness = map[string]any{"reply": resp.String()}
+					}
+				}
+			}
+			sentMu.Unlock()
+			time.Sleep(300 * time.Microsecond)
+		}
+	}()
+	defer func() {
+		sentMu.Lock()
+		sentStop = true
+		sentMu.Unlock()
+		sentWG.Wait()
+		rep.EventN("queries_for_the_always_blocked_name_during_operations", sentSeen)
+	}()
+	arm := func(on bool) {
+		sentMu.Lock()
+		sentArmed = on
+		sentMu.Unlock()
+	}
 
 	names := []string{"a.hist.test", "b.hist.test", "c.hist.test", "d.hist.test", "e.hist.test"}
 	lists := map[string]*c01HList{}
@@ -153,12 +208,97 @@ func c01RunHistory(rep *verifkit.Report, rng *rand.Rand, hidx int) {
 			}
 		}
 		out = append(out, fmt.Sprintf("||v%d.hist.test^", version))
+		// A rule whose name is asked for only after a failed rebuild, i.e.
+		// that the engine has not looked at since it was built.
+		out = append(out, fmt.Sprintf("||u%d.hist.test^", version))
 
 		return out
 	}
 
+	// modelOf builds the monitor's rule view from the lists and custom rules.
+	modelOf := func(customRules []string) (rs []*c01Rule) {
+		add := func(text, place string) {
+			p, perr := rules.NewRule(text, 1)
+			if perr != nil || p == nil {
+				return
+			}
+			r := &c01Rule{Text: text, Place: place}
+			switch x := p.(type) {
+			case *rules.NetworkRule:
+				r.net = x
+			case *rules.HostRule:
+				r.host = x
+			}
+			rs = append(rs, r)
+		}
+		for _, l := range lists {
+			if !l.Enabled {
+				continue
+			}
+			for _, text := range l.Stored {
+				if l.Allow {
+					add(text, "allow")
+				} else {
+					add(text, "block1")
+				}
+			}
+		}
+		for _, text := range customRules {
+			add(text, "custom")
+		}
+
+		return rs
+	}
+	blockedNow := func(srv *vkServer, n, src string) (blocked bool, detail map[string]any, ok bool) {
+		srv.Up.take()
+		resp, xerr := vkExchange(srv, src, false, dns.Fqdn(n), dns.TypeA)
+		calls := srv.Up.take()
+		if xerr != nil || resp == nil {
+			return false, map[string]any{"probe": n, "src": src, "error": fmt.Sprint(xerr)}, false
+		}
+
+		detail = map[string]any{"probe": n, "src": src, "upstream_calls": calls, "reply": resp.String()}
+		if es := srv.QLog.take(); len(es) > 0 && es[len(es)-1].Result != nil {
+			var rl []string
+			for _, r := range es[len(es)-1].Result.Rules {
+				rl = append(rl, fmt.Sprintf("list %d: %s", r.FilterListID, r.Text))
+			}
+			detail["logged_reason"], detail["logged_rules"] = es[len(es)-1].Result.Reason.String(), rl
+		}
+
+		return !c01HasMarker(resp), detail, true
+	}
+
+	// Every history starts with the sentinel rule and a bulk list that makes
+	// engine rebuilds take a while.
+	custom = []string{"||" + sentinel + "^"}
+	if st0, b0 := c01HCall(vs, "POST", "/control/filtering/set_rules", map[string]any{"rules": custom}); st0 != 200 {
+		rep.Inconcl(fmt.Sprintf("initial set_rules: %d %s", st0, b0))
+
+		return
+	}
+	bulk := make([]string, 0, 4000)
+	for i := 0; i < 4000; i++ {
+		bulk = append(bulk, fmt.Sprintf("||bulk%d.bulk.test^", i))
+	}
+	ls.set("/bulk.txt", bulk)
+	if st0, b0 := c01HCall(vs, "POST", "/control/filtering/add_url", map[string]any{"name": "bulk", "url": ls.srv.URL + "/bulk.txt", "whitelist": false}); st0 != 200 {
+		rep.Inconcl(fmt.Sprintf("initial add_url: %d %s", st0, b0))
+
+		return
+	}
+	for w := 0; w < 400; w++ {
+		if b, _, ok := blockedNow(vs, sentinel, "127.0.0.5"); ok && b {
+			arm(true)
+
+			break
+		}
+		time.Sleep(15 * time.Millisecond)
+	}
+
 	steps := 6 + rng.Intn(10)
-	for step := 0; step < steps; step++ {
+	var forced []int
+	for step := 0; step < steps || len(forced) > 0; step++ {
 		var op string
 		var st int
 		var body string
@@ -174,7 +314,164 @@ func c01RunHistory(rep *verifkit.Report, rng *rand.Rand, hidx int) {
 
 			return lists[keys[rng.Intn(len(keys))]]
 		}
-		switch k := rng.Intn(15); {
+		k := rng.Intn(19)
+		if len(forced) > 0 {
+			k, forced = forced[0], forced[1:]
+		} else if k == 15 && rng.Intn(2) == 0 {
+			// A restart right after a list of one kind was added and right
+			// before a list of the other kind is added.
+			if rng.Intn(2) == 0 {
+				k, forced = 100, []int{15, 101}
+			} else {
+				k, forced = 101, []int{15, 100}
+			}
+		}
+		forceAllow := -1
+		if k >= 100 {
+			forceAllow, k = k-100, 0
+		}
+		switch {
+		case k == 15:
+			// A clean restart: the next instance starts from what this one
+			// would have saved and from the files in the data directory.
+			op = "restart"
+			arm(false)
+			disk, dir := vs.stopKeep()
+			conf.Dir, conf.Disk, conf.FilteringEnabled = dir, disk, filteringOn
+			nvs, rerr := vkStart(conf)
+			if rerr != nil {
+				_ = os.RemoveAll(dir)
+				rep.Inconcl("restart failed: " + rerr.Error())
+
+				return
+			}
+			nvs.Up.Script = c01UpstreamScript
+			vs = nvs
+			sentMu.Lock()
+			curVS = nvs
+			sentMu.Unlock()
+			st = 200
+		case k >= 16 && len(lists) > 0 && filteringOn:
+			// A rule change while the file of an enabled list cannot be
+			// opened (a self-referencing symlink at its path: ELOOP, i.e. an
+			// error other than "not found", like EMFILE or EACCES would be).
+			// The rebuild may fail; the decisions must then still be those of
+			// the old or of the new configuration - never something else.
+			var l *c01HList
+			for _, kk := range keys {
+				if lists[kk].Enabled {
+					l = lists[kk]
+
+					break
+				}
+			}
+			if l == nil {
+				continue
+			}
+			dc := &filtering.Config{}
+			vs.F.WriteDiskConfig(dc)
+			fpath := ""
+			for _, fy := range append(append([]filtering.FilterYAML{}, dc.Filters...), dc.WhitelistFilters...) {
+				if fy.URL == ls.srv.URL+l.Path {
+					fpath = fy.Path(vs.dir)
+				}
+			}
+			if _, serr := os.Stat(fpath); fpath == "" || serr != nil {
+				continue
+			}
+			// The engines are rebuilt asynchronously and requests for a
+			// rebuild are coalesced, so a rebuild that fails leaves the
+			// engines of the last one that succeeded.  Make that one the
+			// current configuration first: put a marker rule in force (once it
+			// is, everything accepted before it is in force as well).
+			marker := fmt.Sprintf("m%d-%d.hist.test", hidx, step)
+			custom = append(custom, "||"+marker+"^")
+			if mst, mb := c01HCall(vs, "POST", "/control/filtering/set_rules", map[string]any{"rules": custom}); mst != 200 {
+				rep.Inconcl(fmt.Sprintf("set_rules with marker: %d %s", mst, mb))
+
+				return
+			}
+			settled := false
+			for w := 0; w < 400 && !settled; w++ {
+				if b, _, ok := blockedNow(vs, marker, "127.0.0.1"); ok && b {
+					settled = true
+				} else {
+					time.Sleep(15 * time.Millisecond)
+				}
+			}
+			if !settled {
+				rep.Violate("history:configuration-not-in-force-after:set_rules", "6 s after an accepted set_rules its new rule is not in force", map[string]any{"history": trail, "custom_rules": custom, "marker": marker})
+
+				return
+			}
+			oldCustom := append([]string{}, custom...)
+			newCustom := []string{"||" + sentinel + "^"}
+			for _, n := range names {
+				switch rng.Intn(6) {
+				case 0:
+					newCustom = append(newCustom, "||"+n+"^")
+				case 1:
+					newCustom = append(newCustom, "@@||"+n+"^")
+				}
+			}
+			_ = os.Rename(fpath, fpath+".aside")
+			_ = os.Symlink(fpath, fpath)
+			fst, _ := c01HCall(vs, "POST", "/control/filtering/set_rules", map[string]any{"rules": newCustom})
+			rep.Class("ops_with_unopenable_list_file")
+			time.Sleep(40 * time.Millisecond)
+			conf.FilteringEnabled = filteringOn
+			envOld, envNew := &c01Env{conf: conf, rules: modelOf(oldCustom)}, &c01Env{conf: conf, rules: modelOf(newCustom)}
+			fprobes := append([]string{}, names...)
+			for v := 1; v <= version; v++ {
+				fprobes = append(fprobes, fmt.Sprintf("u%d.hist.test", v))
+			}
+			var fwrong map[string]any
+			for attempt := 0; attempt < 200 && fst == 200; attempt++ {
+				fwrong = nil
+				for _, n := range fprobes {
+					wo, wn := c01Decide(envOld, dns.Fqdn(n), dns.TypeA, "127.0.0.1"), c01Decide(envNew, dns.Fqdn(n), dns.TypeA, "127.0.0.1")
+					got, detail, ok := blockedNow(vs, n, "127.0.0.1")
+					if !ok || (got != wo.Block && got != wn.Block) {
+						fwrong = detail
+						fwrong["model_old"], fwrong["model_new"], fwrong["observed_blocked"] = wo, wn, got
+
+						break
+					}
+					if wo.Block == wn.Block {
+						rep.Class("probes_decided_while_rebuild_failed")
+					}
+				}
+				if fwrong == nil {
+					break
+				}
+				time.Sleep(15 * time.Millisecond)
+			}
+			_ = os.Remove(fpath)
+			_ = os.Rename(fpath+".aside", fpath)
+			if fwrong != nil {
+				dcw := &filtering.Config{}
+				vs.F.WriteDiskConfig(dcw)
+				var ll []string
+				for _, fy := range append(append([]filtering.FilterYAML{}, dcw.Filters...), dcw.WhitelistFilters...) {
+					b, _ := os.ReadFile(fy.Path(vs.dir))
+					ll = append(ll, fmt.Sprintf("%d %s enabled=%v file=%q", fy.ID, fy.URL[strings.LastIndex(fy.URL, "/"):], fy.Enabled, string(b[:min(len(b), 160)])))
+				}
+				fwrong["product_lists"] = ll
+				view := map[string]any{}
+				for k, l := range lists {
+					view[k] = l
+				}
+				fwrong["model_lists"] = view
+				rep.Violate("history:neither-old-nor-new-configuration-after:set_rules-with-unopenable-list-file",
+					"after a rule change during which the file of an enabled list could not be opened, a probe follows neither the configuration before nor the one after the change",
+					map[string]any{"history": trail, "custom_before": oldCustom, "custom_after": newCustom, "unopenable": l.Path, "wrong": fwrong})
+
+				return
+			}
+			// The file is back: the same change again must now be in force.
+			custom = newCustom
+			op = fmt.Sprintf("set_rules-after-unopenable-list-file %v", custom)
+			st, body = c01HCall(vs, "POST", "/control/filtering/set_rules", map[string]any{"rules": custom})
 		case k == 12 && len(lists) > 0:
 			// A refresh during which the transfer of one list breaks in the
 			// middle: that list must stay as it was.
@@ -214,6 +511,9 @@ func c01RunHistory(rep *verifkit.Report, rng *rand.Rand, hidx int) {
 		case k < 3 || len(lists) == 0:
 			path := fmt.Sprintf("/l%d.txt", len(lists)+step*10)
 			l := &c01HList{Path: path, Allow: rng.Intn(4) == 0, Enabled: true}
+			if forceAllow >= 0 {
+				l.Allow = forceAllow == 0
+			}
 			content := randRules()
 			ls.set(path, content)
 			op = fmt.Sprintf("add_url %s allow=%v rules=%v", path, l.Allow, content)
@@ -273,9 +573,11 @@ func c01RunHistory(rep *verifkit.Report, rng *rand.Rand, hidx int) {
 					custom = append(custom, "@@||"+n+"^")
 				}
 			}
+			custom = append(custom, "||"+sentinel+"^")
 			op = fmt.Sprintf("set_rules %v", custom)
 			st, body = c01HCall(vs, "POST", "/control/filtering/set_rules", map[string]any{"rules": custom})
 		default:
+			arm(false)
 			filteringOn = !filteringOn
 			op = fmt.Sprintf("filtering/config enabled=%v", filteringOn)
 			st, body = c01HCall(vs, "POST", "/control/filtering/config", map[string]any{"enabled": filteringOn, "interval": 24})
@@ -296,38 +598,22 @@ func c01RunHistory(rep *verifkit.Report, rng *rand.Rand, hidx int) {
 		}
 		rep.Class("ops_accepted")
 		rep.Class("op_" + strings.Fields(op)[0])
+		{
+			// Diagnostic only: lists of the product that share an ID (and so a
+			// file).
+			dcd := &filtering.Config{}
+			vs.F.WriteDiskConfig(dcd)
+			seenID := map[int]bool{}
+			for _, fy := range append(append([]filtering.FilterYAML{}, dcd.Filters...), dcd.WhitelistFilters...) {
+				if seenID[fy.ID] {
+					rep.Event("steps_at_which_two_lists_of_the_product_share_an_id")
+				}
+				seenID[fy.ID] = true
+			}
+		}
 
 		// Expected decisions from the monitor's view of the configuration.
-		var rs []*c01Rule
-		add := func(text, place string) {
-			p, perr := rules.NewRule(text, 1)
-			if perr != nil || p == nil {
-				return
-			}
-			r := &c01Rule{Text: text, Place: place}
-			switch x := p.(type) {
-			case *rules.NetworkRule:
-				r.net = x
-			case *rules.HostRule:
-				r.host = x
-			}
-			rs = append(rs, r)
-		}
-		for _, l := range lists {
-			if !l.Enabled {
-				continue
-			}
-			for _, text := range l.Stored {
-				if l.Allow {
-					add(text, "allow")
-				} else {
-					add(text, "block1")
-				}
-			}
-		}
-		for _, text := range custom {
-			add(text, "custom")
-		}
+		rs := modelOf(custom)
 		conf.FilteringEnabled = filteringOn
 		env := &c01Env{conf: conf, rules: rs}
 		probes := append(append([]string{}, names...), fmt.Sprintf("v%d.hist.test", version), "never.hist.test")
@@ -353,6 +639,23 @@ func c01RunHistory(rep *verifkit.Report, rng *rand.Rand, hidx int) {
 					gotBlocked := len(calls) == 0 && !c01HasMarker(resp)
 					if gotBlocked != want.Block {
 						wrong = map[string]any{"probe": n, "src": src, "client_now_at": conf.Clients[0].IP, "model": want, "observed_blocked": gotBlocked, "upstream_calls": calls, "reply": resp.String()}
+						if es := vs.QLog.take(); len(es) > 0 && es[len(es)-1].Result != nil {
+							var rl []string
+							for _, r := range es[len(es)-1].Result.Rules {
+								rl = append(rl, fmt.Sprintf("list %d: %s", r.FilterListID, r.Text))
+							}
+							wrong["logged_reason"], wrong["logged_rules"] = es[len(es)-1].Result.Reason.String(), rl
+						}
+						dcw := &filtering.Config{}
+						vs.F.WriteDiskConfig(dcw)
+						var ll []string
+						for _, fy := range dcw.Filters {
+							ll = append(ll, fmt.Sprintf("block %d %s enabled=%v", fy.ID, fy.URL[strings.LastIndex(fy.URL, "/"):], fy.Enabled))
+						}
+						for _, fy := range dcw.WhitelistFilters {
+							ll = append(ll, fmt.Sprintf("allow %d %s enabled=%v", fy.ID, fy.URL[strings.LastIndex(fy.URL, "/"):], fy.Enabled))
+						}
+						wrong["product_lists"] = ll
 
 						break
 					}
@@ -383,6 +686,17 @@ func c01RunHistory(rep *verifkit.Report, rng *rand.Rand, hidx int) {
 			rep.Violate("history:configuration-not-in-force-after:"+strings.Fields(op)[0],
 				"6 s after an accepted admin operation a probe still contradicts the configuration in force",
 				map[string]any{"history": trail, "lists": view, "custom_rules": custom, "filtering_enabled": filteringOn, "wrong": wrong})
+
+			return
+		}
+		arm(filteringOn)
+		sentMu.Lock()
+		bad, seen, sw := sentBad, sentSeen, sentWitness
+		sentMu.Unlock()
+		if bad > 0 {
+			rep.Violate("history:always-blocked-name-forwarded-during:"+strings.Fields(op)[0],
+				fmt.Sprintf("a name blocked by a custom rule in every configuration of the history was forwarded %d times (of %d queries) while the configuration was being changed", bad, seen),
+				map[string]any{"history": trail, "custom_rules": custom, "first": sw})
 
 			return
 		}
